@@ -515,6 +515,9 @@ def run(chk, fb, tier):
     rule_parse_wiring(chk, fb)
     rule_render_wiring(chk, fb)
     rule_all_kinds(chk, fb)
+    from props import C02
+
+    C02.rule_quote_inverse(chk, fb, "C08.g")
     # C08.f termination of the edit: the tokenizer's loops make progress
     for d in C09.find_tokenizer(fb):
         C09.rule_progress(chk, fb, d)
